@@ -177,6 +177,38 @@ fn replay() {
                     }
                 }
             }
+            "buckets" => {
+                // what a call returned, bucket by bucket, through AggregateResourceBalances::add_fungible / add_non_fungible
+                steps += 1;
+                let addrs = [fungible_addr(1), fungible_addr(2), nf_addr()];
+                let mut cs = ManifestResourceConstraints::new();
+                for (r, slot) in case["cs"].as_array().unwrap().iter().enumerate() {
+                    if let Some(c) = slot.as_array().unwrap().first() {
+                        cs = cs.with_unchecked(addrs[r], constraint_of(c));
+                    }
+                }
+                let only = case["only"].as_bool().unwrap();
+                let buckets = case["bseq"].as_array().unwrap().clone();
+                match catch(|| {
+                    let mut bal = AggregateResourceBalances::new();
+                    for bk in buckets.iter() {
+                        let r = bk["r"].as_u64().unwrap() as usize - 1;
+                        if bk["bal"]["kind"] == "f" {
+                            bal.add_fungible(addrs[r], dec_of(bk["bal"]["a"].as_i64().unwrap()));
+                        } else {
+                            bal.add_non_fungible(addrs[r], ids_of(&bk["bal"]["ids"]));
+                        }
+                    }
+                    if only { bal.validate_only(cs).is_ok() } else { bal.validate_includes(cs).is_ok() }
+                }) {
+                    Err(e) => mm(&mut out, i, "panic", json!("no panic"), json!(e)),
+                    Ok(got) => {
+                        if json!(got) != case["sat"] {
+                            mm(&mut out, i, if only { "returned buckets: validate_only verdict" } else { "returned buckets: validate_includes verdict" }, case["sat"].clone(), json!(got));
+                        }
+                    }
+                }
+            }
             _ => panic!("case kind"),
         }
     }
